@@ -366,4 +366,443 @@ theorem range_unique (rs : List Response) (lo hi lo' hi' : Nat)
   simp at e1 e2 e3 e4
   omega
 
+/-! ### the array loop of `handle_recv_message` -/
+
+/-- the response entries of an array, in order -/
+def responsesOf : List Text → List Response
+  | [] => []
+  | e :: r =>
+    match classifyIncoming e with
+    | .response x => x :: responsesOf r
+    | _ => responsesOf r
+
+/-- `complete` effects of an effect list -/
+def completions : List Effect → List (Ticket × Outcome)
+  | [] => []
+  | .complete t o :: r => (t, o) :: completions r
+  | _ :: r => completions r
+
+theorem completions_append (a b : List Effect) : completions (a ++ b) = completions a ++ completions b := by
+  induction a with
+  | nil => rfl
+  | cons x xs ih => cases x <;> simp [completions, ih]
+
+theorem mem_completions (t : Ticket) (o : Outcome) (l : List Effect) :
+    Effect.complete t o ∈ l ↔ (t, o) ∈ completions l := by
+  induction l with
+  | nil => simp [completions]
+  | cons x xs ih => cases x <;> simp [completions, ih]
+
+theorem completions_dropQueued (l : List Effect) : completions (dropQueued l) = completions l := by
+  induction l with
+  | nil => rfl
+  | cons x xs ih =>
+    cases x <;> simp [dropQueued, List.filter, notToFront, completions] <;> simpa [dropQueued] using ih
+
+theorem modChan_mgr (st : Core) (c : ChanId) (f : Chan → Chan) : (st.modChan c f).mgr = st.mgr := rfl
+theorem modChan_dead (st : Core) (c : ChanId) (f : Chan → Chan) : (st.modChan c f).dead = st.dead := rfl
+
+theorem processSubscriptionResponse_frame (st : Core) (s : SubId) (p : Text) :
+    (processSubscriptionResponse st s p).1.mgr = st.mgr ∧ (processSubscriptionResponse st s p).1.dead = st.dead ∧
+    completions (processSubscriptionResponse st s p).2 = [] := by
+  unfold processSubscriptionResponse
+  split
+  · simp [completions]
+  · split
+    · simp [completions]
+    · split
+      · simp [completions]
+      · refine ⟨rfl, rfl, ?_⟩
+        split <;> simp [completions]
+
+theorem processNotification_frame (st : Core) (m : Text) (p : Option Text) :
+    (processNotification st m p).1.mgr.batches = st.mgr.batches ∧ (processNotification st m p).1.dead = st.dead ∧
+    completions (processNotification st m p).2 = [] := by
+  unfold processNotification
+  split
+  · simp [completions]
+  · split
+    · simp [completions]
+    · split <;> simp [completions, Core.modChan, Mgr.removeNotificationHandler]
+
+theorem processSubscriptionClose_frame (st : Core) (s : SubId) :
+    (processSubscriptionClose st s).mgr.batches = st.mgr.batches ∧ (processSubscriptionClose st s).dead = st.dead := by
+  unfold processSubscriptionClose
+  split
+  · simp
+  · split
+    · simp
+    · rename_i h
+      unfold Mgr.removeSubscription at h
+      split at h
+      · simp at h
+        obtain ⟨h1, _⟩ := h
+        subst h1
+        simp [Core.modChan]
+      · simp at h
+
+/-- what the loop leaves behind when it runs to the end -/
+theorem arrayLoop_spec (es : List Text) : ∀ (acc acc' : ArrAcc), arrayLoop acc es = (acc', none) →
+    acc'.batch = acc.batch ++ responsesOf es ∧
+    replyRange acc.range (responsesOf es) = .ok acc'.range ∧
+    acc'.st.mgr.batches = acc.st.mgr.batches ∧ acc'.st.dead = acc.st.dead ∧
+    completions acc'.effs = completions acc.effs := by
+  induction es with
+  | nil =>
+    intro acc acc' h
+    simp [arrayLoop] at h; subst h
+    simp [responsesOf, replyRange]
+  | cons e rest ih =>
+    intro acc acc' h
+    rw [arrayLoop] at h
+    cases hc : classifyIncoming e with
+    | response r =>
+      simp only [hc] at h
+      cases hid : idNum r.id with
+      | none => simp [hid] at h
+      | some id =>
+        simp only [hid] at h
+        obtain ⟨h1, h2, h3, h4, h5⟩ := ih _ _ h
+        simp only [responsesOf, hc, replyRange, hid]
+        exact ⟨by simp [h1], h2, h3, h4, h5⟩
+    | garbage => simp [hc] at h
+    | subNotif s p =>
+      simp only [hc] at h
+      obtain ⟨h1, h2, h3, h4, h5⟩ := ih _ _ h
+      obtain ⟨f1, f2, f3⟩ := processSubscriptionResponse_frame acc.st s p
+      simp only [responsesOf, hc]
+      refine ⟨h1, h2, by rw [h3]; simp [f1], by rw [h4]; simp [f2], by rw [h5]; simp [completions_append, f3]⟩
+    | subClose s =>
+      simp only [hc] at h
+      obtain ⟨h1, h2, h3, h4, h5⟩ := ih _ _ h
+      obtain ⟨f1, f2⟩ := processSubscriptionClose_frame acc.st s
+      simp only [responsesOf, hc]
+      exact ⟨h1, h2, by rw [h3]; simp [f1], by rw [h4]; simp [f2], h5⟩
+    | notif m p =>
+      simp only [hc] at h
+      obtain ⟨h1, h2, h3, h4, h5⟩ := ih _ _ h
+      obtain ⟨f1, f2, f3⟩ := processNotification_frame acc.st m p
+      simp only [responsesOf, hc]
+      refine ⟨h1, h2, by rw [h3]; simp [f1], by rw [h4]; simp [f2], by rw [h5]; simp [completions_append, f3]⟩
+
+/-- when the loop stops early nothing has been completed -/
+theorem arrayLoop_completions (es : List Text) : ∀ (acc acc' : ArrAcc) (f : Option Fatal), arrayLoop acc es = (acc', f) →
+    completions acc'.effs = completions acc.effs := by
+  induction es with
+  | nil => intro acc acc' f h; simp [arrayLoop] at h; rw [h.1]
+  | cons e rest ih =>
+    intro acc acc' f h
+    rw [arrayLoop] at h
+    cases hc : classifyIncoming e with
+    | response r =>
+      simp only [hc] at h
+      cases hid : idNum r.id with
+      | none => simp [hid] at h; rw [h.1]
+      | some id => simp only [hid] at h; have := ih _ _ _ h; exact this
+    | garbage => simp [hc] at h; rw [h.1]
+    | subNotif s p =>
+      simp only [hc] at h
+      rw [ih _ _ _ h]
+      simp [completions_append, (processSubscriptionResponse_frame acc.st s p).2.2]
+    | subClose s => simp only [hc] at h; have := ih _ _ _ h; exact this
+    | notif m p =>
+      simp only [hc] at h
+      rw [ih _ _ _ h]
+      simp [completions_append, (processNotification_frame acc.st m p).2.2]
+
+/-- the loop runs to the end when nothing is garbage and every response id reads as a number -/
+theorem arrayLoop_ok (es : List Text) (hg : ∀ e ∈ es, classifyIncoming e ≠ .garbage)
+    (hp : ∀ r ∈ responsesOf es, ∃ k, idNum r.id = some k) : ∀ acc, ∃ acc', arrayLoop acc es = (acc', none) := by
+  induction es with
+  | nil => intro acc; exact ⟨acc, rfl⟩
+  | cons e rest ih =>
+    intro acc
+    have hg' : ∀ e ∈ rest, classifyIncoming e ≠ .garbage := fun x hx => hg x (List.mem_cons_of_mem _ hx)
+    rw [arrayLoop]
+    cases hc : classifyIncoming e with
+    | response r =>
+      have hp' : ∀ r ∈ responsesOf rest, ∃ k, idNum r.id = some k := fun x hx => hp x (by simp [responsesOf, hc, hx])
+      obtain ⟨k, hk⟩ := hp r (by simp [responsesOf, hc])
+      simp only [hk]
+      exact ih hg' hp' _
+    | garbage => exact absurd hc (hg e List.mem_cons_self)
+    | subNotif s p => exact ih hg' (fun x hx => hp x (by simpa [responsesOf, hc] using hx)) _
+    | subClose s => exact ih hg' (fun x hx => hp x (by simpa [responsesOf, hc] using hx)) _
+    | notif m p => exact ih hg' (fun x hx => hp x (by simpa [responsesOf, hc] using hx)) _
+
+/-! ### association lists -/
+
+section AList
+variable {κ ν : Type} [DecidableEq κ]
+
+theorem alookup_mem (k : κ) (v : ν) (l : List (κ × ν)) (h : alookup k l = some v) : (k, v) ∈ l := by
+  induction l with
+  | nil => simp [alookup] at h
+  | cons p r ih =>
+    obtain ⟨k', v'⟩ := p
+    simp only [alookup] at h
+    split at h
+    · rename_i e; simp at h; subst e h; exact List.mem_cons_self
+    · exact List.mem_cons_of_mem _ (ih h)
+
+theorem alookup_none_iff (k : κ) (l : List (κ × ν)) : alookup k l = none ↔ k ∉ akeys l := by
+  induction l with
+  | nil => simp [alookup, akeys]
+  | cons p r ih =>
+    obtain ⟨k', v'⟩ := p
+    simp only [alookup, akeys, List.mem_cons, not_or]
+    by_cases e : k = k' <;> simp [e, ih]
+
+theorem alookup_cons_self (k : κ) (v : ν) (l : List (κ × ν)) : alookup k ((k, v) :: l) = some v := by
+  simp [alookup]
+
+theorem alookup_cons_ne (k k' : κ) (v : ν) (l : List (κ × ν)) (h : k ≠ k') : alookup k ((k', v) :: l) = alookup k l := by
+  simp [alookup, h]
+
+theorem alookup_aerase_self (k : κ) (l : List (κ × ν)) : alookup k (aerase k l) = none := by
+  induction l with
+  | nil => rfl
+  | cons p r ih =>
+    obtain ⟨k', v'⟩ := p
+    simp only [aerase]
+    split
+    · exact ih
+    · rename_i e; simp [alookup, e, ih]
+
+theorem alookup_aerase_ne (k k' : κ) (l : List (κ × ν)) (h : k ≠ k') : alookup k (aerase k' l) = alookup k l := by
+  induction l with
+  | nil => rfl
+  | cons p r ih =>
+    obtain ⟨k'', v'⟩ := p
+    simp only [aerase]
+    split
+    · rename_i e; subst e; simp [alookup, h, ih]
+    · simp only [alookup]; split <;> simp_all
+
+theorem alookup_areplace_self (k : κ) (v : ν) (l : List (κ × ν)) (h : (alookup k l).isSome) :
+    alookup k (areplace k v l) = some v := by
+  induction l with
+  | nil => simp [alookup] at h
+  | cons p r ih =>
+    obtain ⟨k', v'⟩ := p
+    simp only [areplace]
+    split
+    · rename_i e; subst e; simp [alookup]
+    · rename_i e; simp only [alookup, e, if_false] at h ⊢; exact ih h
+
+theorem alookup_areplace_ne (k k' : κ) (v : ν) (l : List (κ × ν)) (h : k ≠ k') :
+    alookup k (areplace k' v l) = alookup k l := by
+  induction l with
+  | nil => rfl
+  | cons p r ih =>
+    obtain ⟨k'', v'⟩ := p
+    simp only [areplace]
+    split
+    · rename_i e; subst e; simp [alookup, h, ih]
+    · simp only [alookup]; split <;> simp_all
+
+theorem akeys_aerase_sublist (k : κ) (l : List (κ × ν)) : (akeys (aerase k l)).Sublist (akeys l) := by
+  induction l with
+  | nil => simp [aerase, akeys]
+  | cons p r ih =>
+    obtain ⟨k', v'⟩ := p
+    simp only [aerase]
+    split
+    · simp only [akeys]; exact List.Sublist.cons _ ih
+    · simp only [akeys]; exact List.Sublist.cons_cons _ ih
+
+theorem akeys_areplace (k : κ) (v : ν) (l : List (κ × ν)) : akeys (areplace k v l) = akeys l := by
+  induction l with
+  | nil => rfl
+  | cons p r ih =>
+    obtain ⟨k', v'⟩ := p
+    simp only [areplace]
+    split <;> simp [akeys, ih]
+
+theorem mem_akeys_aerase (k k' : κ) (l : List (κ × ν)) : k ∈ akeys (aerase k' l) ↔ k ∈ akeys l ∧ k ≠ k' := by
+  induction l with
+  | nil => simp [aerase, akeys]
+  | cons p r ih =>
+    obtain ⟨k'', v'⟩ := p
+    simp only [aerase]
+    split
+    · rename_i e; subst e
+      simp only [akeys, List.mem_cons, ih]
+      constructor
+      · intro ⟨h1, h2⟩; exact ⟨Or.inr h1, h2⟩
+      · intro ⟨h1, h2⟩
+        rcases h1 with h1 | h1
+        · exact absurd h1 h2
+        · exact ⟨h1, h2⟩
+    · rename_i e
+      simp only [akeys, List.mem_cons, ih]
+      constructor
+      · intro h
+        rcases h with h | ⟨h1, h2⟩
+        · subst h; exact ⟨Or.inl rfl, fun c => e c.symm⟩
+        · exact ⟨Or.inr h1, h2⟩
+      · intro ⟨h1, h2⟩
+        rcases h1 with h1 | h1
+        · exact Or.inl h1
+        · exact Or.inr ⟨h1, h2⟩
+
+theorem mem_aerase (p : κ × ν) (k : κ) (l : List (κ × ν)) (h : p ∈ aerase k l) : p ∈ l ∧ p.1 ≠ k := by
+  induction l with
+  | nil => simp [aerase] at h
+  | cons q r ih =>
+    obtain ⟨k', v'⟩ := q
+    simp only [aerase] at h
+    split at h
+    · exact ⟨List.mem_cons_of_mem _ (ih h).1, (ih h).2⟩
+    · rename_i e
+      rcases List.mem_cons.1 h with h | h
+      · subst h; exact ⟨List.mem_cons_self, fun c => e c.symm⟩
+      · exact ⟨List.mem_cons_of_mem _ (ih h).1, (ih h).2⟩
+
+theorem mem_areplace (p : κ × ν) (k : κ) (v : ν) (l : List (κ × ν)) (h : p ∈ areplace k v l) :
+    p ∈ l ∨ p = (k, v) := by
+  induction l with
+  | nil => simp [areplace] at h
+  | cons q r ih =>
+    obtain ⟨k', v'⟩ := q
+    simp only [areplace] at h
+    split at h
+    · rename_i e; subst e
+      rcases List.mem_cons.1 h with h | h
+      · exact Or.inr h
+      · rcases ih h with h | h
+        · exact Or.inl (List.mem_cons_of_mem _ h)
+        · exact Or.inr h
+    · rcases List.mem_cons.1 h with h | h
+      · subst h; exact Or.inl List.mem_cons_self
+      · rcases ih h with h | h
+        · exact Or.inl (List.mem_cons_of_mem _ h)
+        · exact Or.inr h
+
+end AList
+
+/-! ### who is waiting: ticket counting -/
+
+def kindOp : Kind → Option Nat
+  | .pendingCall (some t) => some t.op
+  | .pendingCall none => none
+  | .pendingSub _ t _ => some t.op
+  | .sub _ _ _ => none
+
+def reqCount (k : Nat) : List (Id × Kind) → Nat
+  | [] => 0
+  | (_, kd) :: r => (if kindOp kd = some k then 1 else 0) + reqCount k r
+
+def batCount (k : Nat) : List ((Nat × Nat) × Ticket) → Nat
+  | [] => 0
+  | (_, t) :: r => (if t.op = k then 1 else 0) + batCount k r
+
+def msgOp : FrontMsg → Option Nat
+  | .batch _ _ t _ => some t.op
+  | .request _ (some t) _ => some t.op
+  | .request _ none _ => none
+  | .subscribe _ _ t _ _ => some t.op
+  | .registerNotif _ t => some t.op
+  | .notification _ => none
+  | .subscriptionClosed _ => none
+  | .unregisterNotif _ => none
+
+def poolCount (k : Nat) : List FrontMsg → Nat
+  | [] => 0
+  | m :: r => (if msgOp m = some k then 1 else 0) + poolCount k r
+
+def compCount (k : Nat) : List Effect → Nat
+  | [] => 0
+  | .complete t _ :: r => (if t.op = k then 1 else 0) + compCount k r
+  | _ :: r => compCount k r
+
+def coreCount (k : Nat) (c : Core) : Nat := reqCount k c.mgr.requests + batCount k c.mgr.batches
+
+theorem compCount_append (k : Nat) (a b : List Effect) : compCount k (a ++ b) = compCount k a + compCount k b := by
+  induction a with
+  | nil => simp [compCount]
+  | cons x xs ih => cases x <;> simp [compCount, ih] <;> omega
+
+theorem poolCount_append (k : Nat) (a b : List FrontMsg) : poolCount k (a ++ b) = poolCount k a + poolCount k b := by
+  induction a with
+  | nil => simp [poolCount]
+  | cons x xs ih => simp [poolCount, ih]; omega
+
+theorem compCount_completeIfAlive (k : Nat) (st : Core) (t : Ticket) (o : Outcome) :
+    compCount k (st.completeIfAlive t o) ≤ if t.op = k then 1 else 0 := by
+  unfold Core.completeIfAlive
+  split <;> simp [compCount]
+
+theorem compCount_dropQueued (k : Nat) (l : List Effect) : compCount k (dropQueued l) = compCount k l := by
+  induction l with
+  | nil => rfl
+  | cons x xs ih =>
+    cases x <;> simp [dropQueued, List.filter, notToFront, compCount] <;> simpa [dropQueued] using ih
+
+theorem reqCount_aerase_le (k : Nat) (id : Id) (l : List (Id × Kind)) : reqCount k (aerase id l) ≤ reqCount k l := by
+  induction l with
+  | nil => simp [aerase]
+  | cons p r ih =>
+    obtain ⟨k', kd⟩ := p
+    simp only [aerase]
+    split <;> simp only [reqCount] <;> omega
+
+theorem reqCount_aerase_of_lookup (k : Nat) (id : Id) (kd : Kind) (l : List (Id × Kind)) (h : alookup id l = some kd) :
+    reqCount k (aerase id l) + (if kindOp kd = some k then 1 else 0) ≤ reqCount k l := by
+  induction l with
+  | nil => simp [alookup] at h
+  | cons p r ih =>
+    obtain ⟨k', kd'⟩ := p
+    simp only [alookup] at h
+    simp only [aerase]
+    split at h
+    · rename_i e; simp at h; subst h
+      simp only [e, if_true, reqCount]
+      have := reqCount_aerase_le k k' r
+      omega
+    · rename_i e
+      simp only [e, if_false, reqCount]
+      have := ih h
+      omega
+
+theorem reqCount_areplace_none (k : Nat) (id : Id) (l : List (Id × Kind)) :
+    reqCount k (areplace id (.pendingCall none) l) ≤ reqCount k l := by
+  induction l with
+  | nil => simp [areplace]
+  | cons p r ih =>
+    obtain ⟨k', kd⟩ := p
+    simp only [areplace]
+    split
+    · simp only [reqCount]
+      have : (if kindOp (Kind.pendingCall none) = some k then 1 else 0) = 0 := by simp [kindOp]
+      rw [this]; omega
+    · simp only [reqCount]; omega
+
+theorem batCount_aerase_le (k : Nat) (key : Nat × Nat) (l : List ((Nat × Nat) × Ticket)) :
+    batCount k (aerase key l) ≤ batCount k l := by
+  induction l with
+  | nil => simp [aerase]
+  | cons p r ih =>
+    obtain ⟨k', t⟩ := p
+    simp only [aerase]
+    split <;> simp only [batCount] <;> omega
+
+theorem batCount_aerase_of_lookup (k : Nat) (key : Nat × Nat) (t : Ticket) (l : List ((Nat × Nat) × Ticket))
+    (h : alookup key l = some t) : batCount k (aerase key l) + (if t.op = k then 1 else 0) ≤ batCount k l := by
+  induction l with
+  | nil => simp [alookup] at h
+  | cons p r ih =>
+    obtain ⟨k', t'⟩ := p
+    simp only [alookup] at h
+    simp only [aerase]
+    split at h
+    · rename_i e; simp at h; subst h
+      simp only [e, if_true, batCount]
+      have := batCount_aerase_le k k' r
+      omega
+    · rename_i e
+      simp only [e, if_false, batCount]
+      have := ih h
+      omega
+
 end Jrpc.Client
